@@ -1,18 +1,20 @@
 //! Verification hooks, compiled only with `--cfg xet_verif`: named schedule points at which a harness can
 //! suspend a thread (outside the cache's state lock), so that interleavings of cache operations can be replayed.
-use std::sync::RwLock;
+use std::sync::{Arc, RwLock};
 
 type Hook = Box<dyn Fn(&str) + Send + Sync>;
 
-static HOOK: RwLock<Option<Hook>> = RwLock::new(None);
+static HOOK: RwLock<Option<Arc<Hook>>> = RwLock::new(None);
 
 pub fn set_hook(h: Option<Hook>) {
-    *HOOK.write().unwrap() = h;
+    *HOOK.write().unwrap() = h.map(Arc::new);
 }
 
 #[inline]
 pub fn sched_point(name: &str) {
-    if let Some(h) = HOOK.read().unwrap().as_ref() {
+    // the lock is released before the hook runs: a thread suspended inside the hook must not block set_hook
+    let h = HOOK.read().unwrap().clone();
+    if let Some(h) = h {
         h(name);
     }
 }
